@@ -220,6 +220,9 @@ def run(ctx):
     ctx.rule = ("every cursor line of generated documents (valid; and truncated while typing a signature) placed in workspaces "
                 "with conftest chains, scopes, plugin and third-party fixtures; context class and offered set vs ground truth; "
                 "distinct = (context class, document kind, non-empty expected set)")
+    pinned(ctx)
+    if os.environ.get("VERIF_ONLY_PINNED"):
+        return
     for i in range(n):
         root = ctx.scratch(f"w{i}")
         ws = gen.gen_workspace(root, ctx.rng, depth=ctx.rng.randint(1, 2), venv=(i % 2 == 0), allow_imports=False,
@@ -298,3 +301,34 @@ def run(ctx):
             shutil.rmtree(root, ignore_errors=True)
             if un:
                 raise Inconclusive("server stopped answering")
+
+
+PIN_CONF = "import pytest\n\n@pytest.fixture\ndef fa():\n    return 1\n\n@pytest.fixture(scope=\"session\")\ndef fs():\n    return 1\n"
+PIN_PAREN = "import pytest\n\n@pytest.mark.usefixtures('fa')\ndef test_x():\n    pass\n\n@pytest.fixture\ndef fx6(fa, "
+PIN_SPELL = "import pytest, pytest_asyncio\n\n\n@pytest_asyncio.fixture\ndef fx7("
+PIN_NESTED = "import pytest\n\ndef helper(a):\n    def test_inner(q):\n        pass\n    return a\n"
+
+
+def pinned(ctx):
+    """one document per recorded text-fallback finding, judged by judge_line like every generated line"""
+    root = ctx.scratch("pinned")
+    ws = gen.WS(root)
+    ws.files = {"conftest.py": PIN_CONF, "test_doc.py": PIN_NESTED}
+    materialize(ws)
+    f = ws.abs("test_doc.py")
+    srv = LSP(srv_bin(), root, locklog=os.path.join(ctx.scratch_root, "lock_srv.log"))
+    try:
+        srv.initialize()
+        srv.did_open(f, PIN_NESTED)
+        model = ws.model()
+        judge_line(ctx, srv, model, f, PIN_NESTED, 4, 8, "none", None, ws.files, "valid")
+        for text, name in ((PIN_PAREN, "fx6"), (PIN_SPELL, "fx7")):
+            before = srv.seq
+            srv.did_change(f, text)
+            srv.wait_diagnostics(f, before, timeout=20)
+            l1 = len(text.split("\n"))
+            judge_line(ctx, srv, model, f, text, l1, len(text.split("\n")[-1]), "signature", None, ws.files | {"test_doc.py": text}, "typing",
+                       func_override=(name, True, "function", ["fa"] if name == "fx6" else []))
+    finally:
+        srv.shutdown()
+        shutil.rmtree(root, ignore_errors=True)
